@@ -6,6 +6,9 @@ import Rscp.Wire
 import Rscp.Model.Codec
 import Rscp.Spec.Frame
 import Driver.Hist
+import Rscp.Model.Receive
+import Rscp.Model.Config
+import Rscp.Props.C05Defs
 open Rscp Rscp.Wire
 
 def optMsgs : Option (List Msg) → String
@@ -43,6 +46,36 @@ def step (line : String) : String :=
     match parseMsgsAll toks with
     | some (ms, []) => resToString (fun _ => "") (Model.validateRequests ms)
     | _ => "bad-op"
+  | "recv" :: b :: hs =>
+    match b.toNat?, parseHexList hs with
+    | some bb, some segs =>
+      let eff := if Gen.Leaf.check_bufBlocksUnset bb then (Model.dflt "ReceiveBufferBlockSize").toNat else bb
+      let out := Model.receiveBytes eff segs
+      resToString msgsToString out.result ++ " ; disc=" ++ (if out.disconnected then "1" else "0")
+    | _, _ => "bad-op"
+  | ["cfg", a, port, u, pw, k, hb, ct, st, rt, cs, buf] =>
+    match bytesOfHex a, port.toNat?, bytesOfHex u, bytesOfHex pw, bytesOfHex k, hb.toInt?, ct.toInt?, st.toInt?, rt.toInt?, buf.toNat? with
+    | some ab, some p, some ub, some pb, some kb, some h, some c, some sd, some r, some b =>
+      let cso : Model.CsOpt := match cs with | "U" => .unset | "T" => .bool true | "F" => .bool false | _ => .otherType
+      let cfg : Model.Config := Model.Config.mk ab p ub pb kb h c sd r cso b
+      let res := match Model.checkConfig cfg with
+        | .ok c' =>
+          let csS := match c'.useChecksum with | .bool true => "T" | .bool false => "F" | .unset => "U" | .otherType => "O"
+          " ".intercalate ["ok", toString c'.port, toString c'.heartbeat, toString c'.connTimeout, toString c'.sendTimeout,
+            toString c'.recvTimeout, csS, toString c'.bufBlocks, hexOfBytes (Model.mkKey c'.key)]
+        | .missing fs => "missing " ++ ",".intercalate fs
+        | .badChecksumType => "badcs"
+      let nc := match Model.newClient cfg with | .ok _ => "ok" | .err _ => "err" | .panic => "panic"
+      res ++ " ; new=" ++ nc
+    | _, _, _, _, _, _, _, _, _, _ => "bad-op"
+  | "send" :: crc :: sec :: nsec :: toks =>
+    match parseMsgsAll toks, sec.toInt?, nsec.toInt? with
+    | some (ms, []), some s, some ns =>
+      match Props.C05.clientSend (crc == "1") s ns ms with
+      | .ok p => "ok " ++ hexOfBytes p
+      | .err e => "err " ++ errName e
+      | .panic => "panic"
+    | _, _, _ => "bad-op"
   | ["crc", h] =>
     match bytesOfHex h with
     | some bs => toString (Crc.crc32 bs)
